@@ -30,7 +30,7 @@ class Contract:
                  lets=None, yields=None, variants=None, prop=None, defs=None, instantiate=None,
                  raises_only_if=None, replay=None, setup=None, pure=False, callee_contracts=None,
                  ghost_after=None, ghost_entry=None, enclosing=None, instantiate_entry=None,
-                 instantiate_call=None, lemmas=None, uses=None, doc=''):
+                 instantiate_call=None, lemmas=None, uses=None, blocks=None, decreases=None, doc=''):
         self.qualname = qualname
         self.params = dict(params or {})
         self.requires = _labelled(requires, 'pre')
@@ -62,6 +62,8 @@ class Contract:
         self.instantiate_call = dict(instantiate_call or {})     # (callee qualname, ensures label) -> [bindings]
         self.uses = dict(uses or {})       # goal label -> labels of the (quantified) hypotheses it needs
         self.lemmas = list(lemmas or [])   # [{'before': '<statement text>', 'prove': {label: clause}}]
+        self.blocks = list(blocks or [])   # statement contracts: [{'first','last','assigns','raises','modifies','label'}]
+        self.decreases = decreases         # termination measure of a recursive function (Int expression over the parameters)
         self.enclosing = enclosing    # params of the enclosing function: its body is run to bind the closure
         self.doc = doc
 
@@ -426,6 +428,11 @@ def frame_obligations(ex, entries, pre_store, label, at):
 
 # ------------------------------------------------------------------ call sites
 
+def as_int(v):
+    from .evalexpr import as_arith
+    return as_arith(v)
+
+
 def apply_contract(ex, callee, fn, args, kwargs):
     """assert pre; havoc frame; assume post (or an exceptional post)"""
     from .executor import Executor
@@ -445,6 +452,10 @@ def apply_contract(ex, callee, fn, args, kwargs):
     short = callee.qualname.split('.', 1)[1]
     for lab, expr in callee.requires.items():
         prove(ex, 'call:%s.pre.%s@%s' % (short, lab, ex.cur_line), sub.spec_bool(expr, env))
+    if callee is ex.root.contract and callee.decreases is not None and getattr(ex.root, 'entry_measure', None) is not None:
+        # recursive call: the termination measure is non-negative and strictly smaller
+        m = as_int(sub.spec_eval(callee.decreases, env))
+        prove(ex, 'call:%s.decreases@%s' % (short, ex.cur_line), z3.And(m >= 0, m < ex.root.entry_measure))
     pre = P.snapshot()
     sub.old_env = env
     # objects the callee allocates get ids at or above the caller's current
@@ -608,6 +619,9 @@ def run_one_path(ex, contract, node, res):
         contract.setup(ex, env)
     for lab, expr in contract.requires.items():
         P.assume(ex.spec_bool(expr, env), tag=lab)
+    ex.entry_measure = None
+    if contract.decreases is not None:
+        ex.entry_measure = as_int(ex.spec_eval(contract.decreases, env))
     for lab, blist in contract.instantiate_entry.items():
         ex.scopes[0].update({k: v for k, v in env.items() if k not in ex.scopes[0]})
         assume_forall_instances(ex, ex, contract.requires[lab], blist, env, None)
